@@ -41,10 +41,15 @@ struct Proc {
     // copy semantics (mode copy): a copy-constructed / copy-assigned processor; nullptr / false if the class is not copyable
     virtual std::unique_ptr<Proc> clone() { return nullptr; }
     virtual bool assign_from(Proc&) { return false; }
+    virtual std::unique_ptr<Proc> move_clone() { return nullptr; }   // move-constructed from this object (which is then only destroyed)
 };
 #define VF_COPY_OPS(Self, ObjT)                                                                      \
     std::unique_ptr<Proc> clone() override {                                                          \
         if constexpr (std::is_copy_constructible_v<ObjT>) return std::unique_ptr<Proc>(new Self(*this)); \
+        else return nullptr;                                                                          \
+    }                                                                                                 \
+    std::unique_ptr<Proc> move_clone() override {                                                     \
+        if constexpr (std::is_move_constructible_v<ObjT>) return std::unique_ptr<Proc>(new Self(std::move(*this))); \
         else return nullptr;                                                                          \
     }                                                                                                 \
     bool assign_from(Proc& src) override {                                                            \
@@ -642,6 +647,7 @@ int main(int argc, char** argv) {
                 size_t copy_at;      // the copy is taken before step copy_at
                 bool by_assign;      // copy-assigned onto an object that has already processed a frame
                 bool destroy_src;    // the source is destroyed right after the copy (and another object is created and used)
+                bool by_move = false;   // the second object is move-constructed from the source, which is then destroyed
             };
             const std::vector<Hist> H = {
                 {"copy after 2 frames, source destroyed, copy continues", {{0, 0, 0}, {0, 0, 1}, {1, 0, 2}, {1, 0, 3}}, 2, false, true},
@@ -651,6 +657,8 @@ int main(int argc, char** argv) {
                 {"copy-assigned onto a used object after 2 frames, source fed other data", {{0, 0, 0}, {0, 0, 1}, {0, 1, 0}, {1, 0, 2}, {0, 1, 1}, {1, 0, 3}}, 2, true, false},
                 {"copy-assigned onto a used object, source destroyed", {{0, 0, 0}, {0, 0, 1}, {1, 0, 2}, {1, 0, 3}}, 2, true, true},
                 {"copy of a fresh object, source used first", {{0, 1, 0}, {0, 1, 1}, {1, 0, 0}, {1, 0, 1}}, 0, false, false},
+                {"moved after 2 frames (source destroyed), target continues", {{0, 0, 0}, {0, 0, 1}, {1, 0, 2}, {1, 0, 3}}, 2, false, true, true},
+                {"moved when fresh (source destroyed), target runs the stream", {{1, 0, 0}, {1, 0, 1}, {1, 0, 2}}, 0, false, true, true},
             };
             auto feed = [&](Proc& p, const Step& st, std::vector<double>& o) {
                 std::vector<double> o1, o2;
@@ -686,7 +694,10 @@ int main(int argc, char** argv) {
                             }
                             for (size_t i = 0; i < h.steps.size(); ++i) {
                                 if (i == h.copy_at) {
-                                    if (h.by_assign) assign_ok = q->assign_from(*p);
+                                    if (h.by_move) {
+                                        q = p->move_clone();
+                                        if (!q) assign_ok = false;
+                                    } else if (h.by_assign) assign_ok = q->assign_from(*p);
                                     else q = p->clone();
                                     if (h.destroy_src) {
                                         p.reset();
